@@ -3,7 +3,7 @@ import ast
 
 from . import nf
 from .nf import Poly, Tup, Const, Slice, app, NONE
-from .model import FuncInfo, ClassInfo, dotted
+from .model import FuncInfo, ClassInfo, dotted, AnalysisError
 from .npmodel import HANDLERS, ARRAY_METHODS_MUTATE, P, arith
 from .state import State, Path, Event, Fork, PathLimit, fresh_id
 from .expr import ExprMixin, truth
@@ -53,6 +53,37 @@ def returned_namedtuple_fields(repo, fi):
                 return None
             found.add(fl)
     return found.pop() if len(found) == 1 else None
+
+
+RECORD_FIELDS = {}       # object atom of a record instance -> its field names in order
+
+
+def record_fields(cls):
+    """[(field, default node or None)] when instances of `cls` are records with a generated constructor: a dataclass, or a
+    typing.NamedTuple subclass (one that has methods; plain ones are handled as tuples)"""
+    decos = [d_ for d_ in (dotted(x.func if isinstance(x, ast.Call) else x) for x in cls.node.decorator_list) if d_]
+    is_dc = any(d_.split('.')[-1] == 'dataclass' for d_ in decos)
+    is_nt = any((b or '').split('.')[-1] == 'NamedTuple' for b in cls.base_exprs)
+    if not (is_dc or is_nt):
+        return None
+    out = []
+    for k in reversed(cls.mro()):
+        for n_ in k.node.body:
+            if isinstance(n_, ast.AnnAssign) and isinstance(n_.target, ast.Name):
+                ann = ast.unparse(n_.annotation)
+                if 'ClassVar' in ann:
+                    continue
+                out = [(a, b) for a, b in out if a != n_.target.id] + [(n_.target.id, n_.value)]
+    return out
+
+
+class _ClassScope:
+    """name resolution of a default value written in a class body: the module of the class"""
+    def __init__(self, cls, base):
+        self.module, self.key, self.name, self.qualname, self.cls = cls.module, cls.key, cls.name, cls.name, None
+
+    def __getattr__(self, name):
+        return None
 
 
 def known_functions():
@@ -677,6 +708,26 @@ class Interp(ExprMixin):
         if init is None:
             self.log(st, 'call', node, callee=cls.key + '.__init__', bound={}, args=args, kwargs=kwargs,
                      result=obj, new=cls.key)
+            fields = record_fields(cls)
+            if fields is not None:
+                # a dataclass / NamedTuple record: the generated constructor stores its arguments under the annotated names
+                vals = dict(zip([n_ for n_, _ in fields], args))
+                if len(args) > len(fields) or any(k not in dict(fields) for k in kwargs):
+                    self.note(st, 'B2', node, what=f'arguments do not fit the fields of {cls.key}', callee=cls.key)
+                    return obj
+                vals.update(kwargs)
+                for name, default in fields:
+                    if name not in vals:
+                        if default is None:
+                            self.note(st, 'B2', node, what=f'missing field {name!r} of {cls.key}', callee=cls.key)
+                            return obj
+                        prev, self.cur = self.cur, _ClassScope(cls, self.cur)
+                        try:
+                            vals[name] = self.eval(default, st)
+                        finally:
+                            self.cur = prev
+                    st.heap[nf.attr(obj, name).single_atom()] = vals[name]
+                RECORD_FIELDS[obj.single_atom()] = tuple(n_ for n_, _ in fields)
             return obj
         try:
             bound = self.bind(init, args, kwargs, self_val=obj, st=st, node=node)
@@ -817,7 +868,9 @@ class Interp(ExprMixin):
     def exec_stmt1(self, s, st):
         m = getattr(self, 's_' + type(s).__name__, None)
         if m is None:
-            return [st], []
+            if isinstance(s, (ast.Nonlocal, ast.ClassDef, ast.TypeAlias if hasattr(ast, 'TypeAlias') else ast.Pass)):
+                return [st], []
+            raise AnalysisError(f'statement {type(s).__name__} is not followed ({self.cur.key}:{getattr(s, "lineno", "?")})')
         return m(s, st)
 
     def s_Expr(self, s, st):
@@ -916,6 +969,9 @@ class Interp(ExprMixin):
                             [nf.index(pv, Poly.const(-j)) for j in range(after, 0, -1)]
             elif isinstance(v, Tup) and len(v) == n:
                 items = v.items
+            elif isinstance(v, Poly) and v.single_atom() in RECORD_FIELDS and len(RECORD_FIELDS[v.single_atom()]) == n \
+                    and all(nf.attr(v, f_).single_atom() in st.heap for f_ in RECORD_FIELDS[v.single_atom()]):
+                items = [st.heap[nf.attr(v, f_).single_atom()] for f_ in RECORD_FIELDS[v.single_atom()]]
             else:
                 pv = P(v)
                 items = [nf.index(pv, Poly.const(i)) for i in range(n)]
@@ -1001,6 +1057,84 @@ class Interp(ExprMixin):
         c1, d1 = self.exec_block(s.body, [a])
         c2, d2 = self.exec_block(s.orelse, [b]) if s.orelse else ([b], [])
         return c1 + c2, d1 + d2
+
+    def s_Match(self, s, st):
+        """`match subject: case ...` as the if / elif chain it abbreviates (value, singleton, sequence, capture, wildcard
+        and or-patterns, with guards); a pattern outside that set makes the analysis give up on the function."""
+        cache = self.__dict__.setdefault('_match_stmts', {})
+        stmts = cache.get(id(s))
+        if stmts is None:
+            tmp = f'__match_{s.lineno}_{s.col_offset}'
+
+            def load(expr_src):
+                return ast.parse(expr_src, mode='eval').body
+
+            def test_of(pat, subj, binds):
+                """(test expression or None for 'always', ) for pattern `pat` against the expression text `subj`"""
+                if isinstance(pat, ast.MatchValue):
+                    return ast.Compare(left=load(subj), ops=[ast.Eq()], comparators=[pat.value])
+                if isinstance(pat, ast.MatchSingleton):
+                    return ast.Compare(left=load(subj), ops=[ast.Is()], comparators=[ast.Constant(value=pat.value)])
+                if isinstance(pat, ast.MatchAs):
+                    inner = test_of(pat.pattern, subj, binds) if pat.pattern is not None else None
+                    if pat.name is not None:
+                        binds.append((pat.name, subj))
+                    return inner
+                if isinstance(pat, ast.MatchOr):
+                    parts = []
+                    for q in pat.patterns:
+                        b2 = []
+                        t = test_of(q, subj, b2)
+                        if b2:
+                            raise AnalysisError('match: capture inside an or-pattern')
+                        if t is None:
+                            return None
+                        parts.append(t)
+                    return ast.BoolOp(op=ast.Or(), values=parts)
+                if isinstance(pat, ast.MatchSequence) and not any(isinstance(q, ast.MatchStar) for q in pat.patterns):
+                    parts = []
+                    for k, q in enumerate(pat.patterns):
+                        t = test_of(q, f'{subj}[{k}]', binds)
+                        if t is not None:
+                            parts.append(t)
+                    if not parts:
+                        return None
+                    return parts[0] if len(parts) == 1 else ast.BoolOp(op=ast.And(), values=parts)
+                raise AnalysisError(f'match: pattern {type(pat).__name__} is not followed')
+            first = ast.Assign(targets=[ast.Name(id=tmp, ctx=ast.Store())], value=s.subject)
+            chain = None
+            tail = None
+            for case in s.cases:
+                binds = []
+                t = test_of(case.pattern, tmp, binds)
+                body = [ast.Assign(targets=[ast.Name(id=nm, ctx=ast.Store())], value=load(src)) for nm, src in binds] + list(case.body)
+                if case.guard is not None:
+                    if binds:
+                        raise AnalysisError('match: guard with captures')
+                    t = case.guard if t is None else ast.BoolOp(op=ast.And(), values=[t, case.guard])
+                if t is None:
+                    node_ = body          # irrefutable: the else branch
+                    if tail is None:
+                        chain = node_
+                    else:
+                        tail.orelse = node_
+                    tail = None
+                    break
+                node_ = ast.If(test=t, body=body, orelse=[])
+                if tail is None and chain is None:
+                    chain = [node_]
+                else:
+                    tail.orelse = [node_]
+                tail = node_
+            stmts = [first] + (chain or [])
+            for x in stmts:
+                ast.copy_location(x, s)
+                for n_ in ast.walk(x):
+                    if not hasattr(n_, 'lineno'):
+                        ast.copy_location(n_, s)
+                ast.fix_missing_locations(x)
+            cache[id(s)] = stmts
+        return self.exec_block(stmts, [st])
 
     def refine(self, test, pol, st):
         """x is None / x is not None refinement of a Name."""
